@@ -462,16 +462,22 @@ def variants(ctx, seed):
     return out
 
 
-def quiet():
+def quiet(ctx=None):
     import logging
     import mtscomp
     logging.getLogger("ibllib").setLevel(logging.CRITICAL)
     logging.getLogger("mtscomp").setLevel(logging.ERROR)
     mtscomp.tqdm = lambda it=None, **k: it          # progress bars off (cosmetic)
+    if ctx is not None:
+        # the compression library starts one thread per core for every file (tens of ms each, for files of one to three chunks):
+        # its own configuration file says one thread; the bytes it writes are the same
+        cfg = Path(ctx.scratch) / "mtscomp_config.json"
+        cfg.write_text(json.dumps({"n_threads": 1}))
+        mtscomp.CONFIG_PATH = cfg
 
 
 def run(ctx, clauses=C03_CLAUSES, pid="C03", extra_scenarios=None, post=None):
-    quiet()
+    quiet(ctx)
     ctx.level = "model_checking"
     for cfg in (["mc/NP2Split_quick.cfg", "mc/NP2Split_real.cfg"] if ctx.quick else
                 ["mc/NP2Split_thorough.cfg", "mc/NP2Split_real.cfg", "mc/NP2Split_realsmall.cfg"]):
@@ -620,7 +626,7 @@ def selftest(ctx, traces, bad, clauses):
 
 
 def replay(ctx, sc, clauses=C03_CLAUSES, pid="C03"):
-    quiet()
+    quiet(ctx)
     s = sc["scenario"]
     t = one_run(ctx, s, 0)
     if t is None:
